@@ -176,4 +176,18 @@ func init() {
 	c15exp.Profile = Profile{Prop: "C15", ForceExp: true, NoCustomExp: true, NoRef: true, Keys: [2]int{2, 8}}
 	c15exp.Rounds, c15exp.Resize = true, false
 	Props["C15"].Engines = append(Props["C15"].Engines, &concEngine{opts: &c15exp})
+	// C10 (concurrent half): loads, bulk loads and waiters on one to three keys; what a Get or
+	// BulkGet returns is cached when it returns (linearizability with the finished-load rule for
+	// waiters, BulkGet result rules, failed loads leave nothing behind).
+	c10 := &ConcOpts{
+		Profile: Profile{Prop: "C10", NoExp: true, NoRef: true, Keys: [2]int{1, 3}},
+		OpW:     zeroExcept(map[string]int{"load": 30, "bulkget": 14, "get": 16, "getentry": 3, "set": 5, "invalidate": 5, "compute": 2}),
+		Tasks:   [2]int{2, 4}, OpsPer: [2]int{2, 10}, Prefill: [2]int{0, 2},
+		Executors: []string{"default", "sync", "queued"}, Lin: true, AllowStall: true, StallP: 6,
+		NonTrivial: func(o *ConcOutcome) bool {
+			return o.Probes["load-waiters"]+o.Probes["conc-bulkget-results-checked"] > 0
+		},
+	}
+	Props["C10"].Engines = append(Props["C10"].Engines, &concEngine{opts: c10})
+	Props["C10"].Conc = c10
 }
